@@ -36,6 +36,10 @@ def mini_eval(node, env):
         return tuple(mini_eval(e, env) for e in node.elts)
     if isinstance(node, ast.UnaryOp) and isinstance(node.op, ast.Not):
         return not mini_eval(node.operand, env)
+    if isinstance(node, ast.IfExp):
+        return mini_eval(node.body, env) if mini_eval(node.test, env) else mini_eval(node.orelse, env)
+    if isinstance(node, ast.Call) and isinstance(node.func, ast.Name) and node.func.id == "bool" and len(node.args) == 1 and not node.keywords:
+        return bool(mini_eval(node.args[0], env))
     if isinstance(node, ast.BoolOp):
         if isinstance(node.op, ast.And):
             r = True
